@@ -2,6 +2,7 @@
 from hypothesis import strategies as st
 
 from pv import catalog, catgen, codec
+from pv import scale
 from pv.core import Sub, Fail, exc_fail
 
 ID = "C03"
@@ -40,7 +41,28 @@ def _case(draw, tier, names):
     return c
 
 
+def _widened(case, ctx):
+    """Width instead of length: one case in eight gets 33-130 extra fields on every source (rows that were short stay
+    short), and dict cells get 20 extra keys of which some rows lack a few - in-place padding and `setdefault`-style
+    fill-ins only show on rows / dicts that are incomplete."""
+    b = scale.derive(case, odds=8, sizes=[0], wide=True)
+    if not b:
+        return case
+    b = dict(b, rows=0, wide=b["wide"] or 40)
+    S = []
+    for t in case["sources"]:
+        t2 = scale.apply(t, b)
+        for i, r in enumerate(t2[1:]):
+            for j, v in enumerate(r):
+                if isinstance(v, dict):
+                    r[j] = dict(v, **dict(("x%d" % k, k) for k in range(20) if (i + k) % 5))
+        S.append(t2)
+    ctx.label("wide")
+    return dict(case, sources=S)
+
+
 def check(case, ctx):
+    case = _widened(case, ctx)
     e = catalog.get(case["entry"])
     S = codec.snapshot(case["sources"])  # fresh mutable copy
     variant = case.get("variant", "default")
